@@ -189,3 +189,29 @@ PROPS["C06"] = dict(
     stages=[dict(name="sim-heal", flavour="release", **SIM)],
     floors={"quick": {"fair_suffixes_that_progressed": 80, "cases_with_commits": 80}, "thorough": {"fair_suffixes_that_progressed": 1000}},
 )
+
+CONC = dict(crate="conc")
+_SMALL = {"small": 1}
+
+PROPS["C17"] = dict(
+    title="Task scopes join every task, report a first failure and cancel the rest",
+    level="exploration",
+    technique="runtime monitoring: offline event-log checker (join, result, first failure, cancellation) over generated scope programs on racy runtimes, plus Miri (many seeds), ThreadSanitizer and AddressSanitizer on the same workload",
+    explanation="Random scope programs (up to 40 tasks: main/background x async/blocking, tasks spawning tasks, nested scopes, yields, waits for cancellation incl. in "
+    "timeout child contexts, Ok/Err/panic outcomes, caller cancellation and deadlines) run on the real scope::run! - on a current-thread runtime with paused clock "
+    "(deterministic; a scope that never returns is detected in virtual time) and on multi-thread runtimes with 2-8 workers (racy). A log with one sequence counter is "
+    "checked: every started task ended before its scopes returned; result = root value / an error some task returned that is not provably later than another / re-raised "
+    "panic; cancellation observed only after a trigger, and every waiter released. Every task writes a cell borrowed from the caller's frame as its last action, so an "
+    "early return is a use-after-free: the same binary runs under Miri (-Zmiri-seed per shard varies the schedule), ThreadSanitizer (-Zbuild-std) and AddressSanitizer, "
+    "where any report fails the run.",
+    assumptions=["tokio is trusted; a clean Miri/TSan/ASan run means no report on the reached code, not memory safety", "held on the generated programs and observed interleavings only"],
+    stages=[
+        dict(name="native", flavour="release", **CONC),
+        dict(name="miri", flavour="miri", args=_SMALL, shards=16, **CONC, watchdog_s={"quick": 1500, "thorough": 5400}),
+        dict(name="tsan", flavour="tsan", args={"programs": 60}, shards=8, tiers=["thorough"], **CONC),
+        dict(name="asan", flavour="asan", args={"programs": 60}, shards=8, tiers=["thorough"], **CONC),
+    ],
+    floors={"quick": {"executions_multi_thread": 5000, "executions_current_thread_virtual_time": 2000, "executions_with_panic": 1000, "executions_with_competing_errors": 1000,
+                      "executions_with_caller_cancel": 1000, "executions_with_caller_deadline": 300, "executions_with_nested_scope": 1000, "cancellations_observed": 5000},
+            "thorough": {"executions_multi_thread": 100000}},
+)
